@@ -368,6 +368,125 @@ def oracle(session, full=None):
     return None
 
 
+# ---------------------------------------------------------------- raw-text sessions (property oracle only, outside the model)
+# The Lean session model covers the alphabet above with an unprotected stack.  The property itself quantifies over
+# every cell, so a second stream runs free-form Michelson cells — failures *inside* DIP / DIP n bodies (a protected
+# stack prefix is live when the cell breaks), DIG / DUG / DUP n / DROP n at and beyond the stack depth, PATCH of the
+# execution environment followed by a failure, plain maps / lists / strings on the stack — through the real
+# Interpreter only and judges them with the two statements of the property (metamorphic: the session without its
+# failing cells).  Observations use the public API only: the Micheline rendering of every stack slot and what
+# AMOUNT / BALANCE / NOW / SENDER push afterwards.
+RAW_OK = [
+    'PUSH int {v}', 'PUSH nat {v}', 'PUSH string "s{v}"', 'PUSH int {v} ; PUSH nat {k}', 'DUP', 'DROP', 'SWAP', 'PAIR', 'UNPAIR', 'ADD',
+    'DIP {{ PUSH int {v} }}', 'DIP {{ DROP }}', 'DIP 2 {{ PUSH nat {v} }}', 'DIP {{ DIP {{ PUSH string "d{v}" }} }}', 'DIP {k} {{ DUP }}',
+    'DIG 2', 'DUG 2', 'DUP 2', 'DIG {k}', 'DUG {k}', 'DUP {k}', 'DROP {k}', 'NIL int ; PUSH int {v} ; CONS',
+    'EMPTY_MAP nat nat ; PUSH nat {v} ; SOME ; PUSH nat {k} ; UPDATE', 'EMPTY_BIG_MAP nat nat ; PUSH nat {v} ; SOME ; PUSH nat {k} ; UPDATE',
+    'PUSH nat {v} ; SOME ; PUSH nat {k} ; UPDATE', 'NONE nat ; PUSH nat {k} ; UPDATE', 'DUP ; PUSH nat {k} ; GET',
+    'PATCH AMOUNT {v}', 'PATCH BALANCE {v}00', 'PATCH NOW {v}', 'PATCH AMOUNT', 'PATCH SENDER "KT1BEqzn5Wx8uJrZNvuS9DVHmLvG9td3fDLi"',
+    'PATCH SOURCE "tz1VSUr8wwNhLAzempoch5d6hLRiTh8Cjcjb"', 'AMOUNT', 'BALANCE', 'NOW', 'SENDER ; SOURCE ; PAIR', 'DROP_ALL', 'DUMP',
+    'UNIT ; DIP {{ UNIT }} ; PAIR', 'PUSH bool True ; IF {{ PUSH int {v} }} {{ PUSH int 0 }}',
+    'PUSH nat {k} ; PUSH bool True ; LOOP {{ PUSH nat 1 ; SWAP ; SUB ; ISNAT ; IF_NONE {{ PUSH nat 0 ; PUSH bool False }} {{ PUSH bool True }} }}',
+    'LAMBDA int int {{ PUSH int {v} ; ADD }} ; PUSH int {k} ; EXEC',
+]
+RAW_FAIL = [
+    'DIP {{ UNIT ; FAILWITH }}', 'DIP {{ PUSH int {v} ; UNIT ; FAILWITH }}', 'DIP 2 {{ DROP ; PUSH nat {v} ; UNIT ; FAILWITH }}',
+    'DIP {{ DIP {{ PUSH nat {v} ; FAILWITH }} }}', 'DIP {{ PUSH nat 1 ; PUSH string "x" ; ADD }}', 'DIP {k} {{ DROP ; DROP ; DROP ; DROP }}',
+    'PUSH int {v} ; DIP {{ DIP {k} {{ UNIT ; FAILWITH }} }}', 'DIG {d}', 'DIG {d1}', 'DUP {d1}', 'DUP {d2}', 'DUG {d}', 'DUG {d1}', 'DROP {d1}',
+    'DIP {d} {{ UNIT ; FAILWITH }}', 'DIP {d1} {{ UNIT }}', 'PATCH AMOUNT {v} ; UNIT ; FAILWITH', 'PATCH NOW {v} ; DIP {{ UNIT ; FAILWITH }}',
+    'PATCH BALANCE {v} ; PATCH SENDER "KT1BEqzn5Wx8uJrZNvuS9DVHmLvG9td3fDLi" ; DROP 99', 'DROP_ALL ; UNIT ; FAILWITH',
+    'PUSH int {v} ; DIP {{ DROP_ALL }} ; UNIT ; FAILWITH', 'EMPTY_BIG_MAP nat nat ; DIP {{ UNIT ; FAILWITH }}',
+    'PUSH nat {v} ; SOME ; PUSH nat {k} ; UPDATE ; DIP {{ UNIT ; FAILWITH }}', 'PUSH bool True ; IF {{ DIP {{ UNIT ; FAILWITH }} }} {{ }}',
+    'PUSH bool True ; LOOP {{ DIP {{ UNIT ; FAILWITH }} }}', 'LAMBDA unit unit {{ DIP {{ FAILWITH }} }} ; UNIT ; EXEC',
+    'NIL int ; PUSH int {v} ; CONS ; ITER {{ DIP {{ UNIT ; FAILWITH }} }}', 'PUSH int {v} ; )', 'DIP {{ PUSH int }}',
+]
+RAW_PROBE = ['PUSH int 3', 'PUSH nat 7 ; PUSH nat 8', 'AMOUNT ; BALANCE ; NOW', 'SENDER ; SOURCE', 'DUP', 'PUSH string "p" ; DIP {{ PUSH string "q" }}']
+
+
+def run_raw(cells):
+    """[(failed, 'F|ok ; <stack rendering>')] per cell, public API only"""
+    from pytezos.michelson.format import micheline_to_michelson
+    from pytezos.michelson.repl import Interpreter
+    _install_parse_cache()
+    interp = Interpreter()
+    out = []
+    for text in cells:
+        r = interp.execute(text)
+        slots = []
+        for x in interp.stack.items:
+            try:
+                v = micheline_to_michelson(x.to_micheline_value(lazy_diff=True) if x.prim == 'big_map' else x.to_micheline_value(), inline=True)
+            except Exception as e:  # noqa: BLE001 — rendering problems are part of the observation
+                v = f'<unrenderable {type(e).__name__}>'
+            ptr = f'#{x.ptr}' if x.prim == 'big_map' else ''
+            slots.append(f"{micheline_to_michelson(x.as_micheline_expr(), inline=True)}{ptr} {v}")
+        out.append((r.error is not None, ('F' if r.error is not None else 'ok') + ' ; ' + ' | '.join(slots)))
+    return out
+
+
+def raw_oracle(cells, full=None):
+    full = full or run_raw(cells)
+    prev = ''
+    for i, (failed, line) in enumerate(full):
+        state = line.split(' ; ', 1)[1]
+        if failed and state != prev:
+            return 'state changed by a failing cell', f'cell #{i} {cells[i]!r} failed; stack before: [{prev}]; after: [{state}]'
+        prev = state
+    kept = [c for c, (failed, _) in zip(cells, full) if not failed]
+    if len(kept) == len(cells):
+        return None
+    ref = run_raw(kept)
+    got = [line for failed, line in full if not failed]
+    for i, ((rf, rline), gline) in enumerate(zip(ref, got)):
+        if rf or rline != gline:
+            return ('later result differs from the session without the failing cells',
+                    f'surviving cell #{i} {kept[i]!r}: with the failing cells: [{gline}]; without them: [{"F" if rf else rline}]')
+    return None
+
+
+def gen_raw_session(rng, max_cells):
+    n = rng.randrange(3, max_cells + 1)
+    cells, depth = [], 0           # depth: the generator's own rough idea of the stack depth (steers DIG/DUP/DUG n to the edge)
+    p_fail = rng.choice([0.2, 0.35, 0.5])
+    for _ in range(n):
+        fmt = dict(v=rng.randrange(1, 60), k=rng.randrange(0, 4), d=depth, d1=depth + 1, d2=depth + 2)
+        if rng.random() < p_fail:
+            cells.append(rng.choice(RAW_FAIL).format(**fmt))
+        else:
+            c = rng.choice(RAW_OK).format(**fmt)
+            cells.append(c)
+            depth = max(0, depth + c.count('PUSH') + c.count('EMPTY') + c.count('DUP') - c.count('DROP') - c.count('ADD') - c.count('PAIR')
+                        - c.count('UPDATE') * 2 - c.count('CONS'))
+        if rng.random() < 0.15:
+            depth = rng.randrange(0, 5)
+    for _ in range(rng.randrange(1, 4)):
+        cells.append(rng.choice(RAW_PROBE).format())
+    return cells
+
+
+def shrink_raw(cells):
+    cur = list(cells)
+    changed = True
+    while changed:
+        changed = False
+        i = 0
+        while i < len(cur):
+            cand = cur[:i] + cur[i + 1:]
+            if cand and raw_oracle(cand) is not None:
+                cur, changed = cand, True
+            else:
+                i += 1
+    return cur
+
+
+RAW_REGRESSIONS = [
+    ['PUSH int 1 ; PUSH int 2', 'DIP { UNIT ; FAILWITH }', 'PUSH int 3'],
+    ['PUSH int 1 ; PUSH int 2', 'DIG 2', 'PUSH int 3'],
+    ['PUSH int 1 ; PUSH int 2', 'DUP 3', 'PUSH int 3'],
+    ['PATCH AMOUNT 5', 'PATCH AMOUNT 9 ; UNIT ; FAILWITH', 'AMOUNT'],
+    ['PUSH int 1', 'DIP { DIP { UNIT } }', 'PUSH int 2', 'DIP 2 { DROP }', 'PUSH nat 4 ; PUSH nat 5'],
+]
+
+
 def session_text(session):
     return [cell_text(c) for c in session]
 
@@ -387,6 +506,8 @@ def run(ctx):
         'big_map nat nat only, no DIP (stack.protected = 0), no shell attached (reads of registered on-chain maps raise)',
         'UPDATE with a payload that is not option nat is outside the model (never generated)',
         'michelson_to_micheline is memoised by the harness (pure function of the cell text)',
+        'raw-text stream (failures inside DIP / DIP n bodies, DIG/DUG/DUP/DROP n at the stack depth, PATCH then fail, maps, lists, lambdas, loops): '
+        'outside the Lean session model; judged on the real Interpreter by the property oracle only (no theorem covers a protected prefix at failure time)',
         'observation of a stacked big map reads its public attributes ptr / items / removed_keys / context',
     ]
     sessions = [[list(c) for c in s] for s in REGRESSIONS]
@@ -431,3 +552,25 @@ def run(ctx):
                 j = next((k for k, (a, b) in enumerate(zip(gl, ml)) if a != b), min(len(gl), len(ml)))
                 ctx.mismatch('session', {'cells': session_text(s), 'tokens': s, 'first_difference_at_cell': j},
                              gl[j] if j < len(gl) else '(missing)', ml[j] if j < len(ml) else '(missing)')
+    # ---- raw-text stream: property oracle on the real interpreter only
+    n_raw = 700 if quick else 6000
+    raws = [list(c) for c in RAW_REGRESSIONS] + [gen_raw_session(ctx.rng, 7 if quick else 14) for _ in range(n_raw)]
+    shrunk = 0
+    for cells in raws:
+        full = run_raw(cells)
+        fails = [f for f, _ in full]
+        ctx.case({'raw_cells': cells}, nontrivial=any(fails) and not all(fails))
+        ctx.count('raw_failing_cells', min(sum(fails), 6))
+        for c, f in zip(cells, fails):
+            if f:
+                ctx.count('raw_failed_in', 'DIP body' if 'DIP' in c else ('deep stack op' if c.split()[0] in ('DIG', 'DUG', 'DUP', 'DROP') else
+                                                                          ('after PATCH' if 'PATCH' in c else 'other')))
+        bad = raw_oracle(cells, full)
+        if bad is not None:
+            if shrunk < 8:
+                shrunk += 1
+                small = shrink_raw(cells)
+                what, detail = raw_oracle(small)
+                ctx.violation('raw: ' + ' | '.join(small), f'{what}: {detail}', {'cells': small, 'what': what, 'detail': detail, 'from': cells})
+            else:
+                ctx.violation('raw-unshrunk: ' + ' | '.join(cells)[:300], f'{bad[0]}: {bad[1]}', {'cells': cells, 'what': bad[0], 'detail': bad[1]})
